@@ -1,0 +1,7 @@
+//go:build !verif
+
+package kmipclient
+
+// verifYield is a verification yield point; without the "verif" build tag it is an empty
+// function that the compiler inlines away.
+func verifYield(string) {}
